@@ -19,7 +19,7 @@ from lerax.callback import CallbackList  # noqa: E402
 
 from harness.c06_replay import row_lit  # noqa: E402
 from harness.rollout_cases import _ALLOW, est_lit  # noqa: E402
-from harness.stubs import (KeyTree, TabEnv, TabPolicy, build_stack, canon_state, path_lit, ptab_lit, random_ptab, random_stack,  # noqa: E402
+from harness.stubs import (KeyTree, TabEnv, TabPolicy, build_stack, canon_state, chain_tab, path_lit, ptab_lit, random_ptab, random_stack,  # noqa: E402
                            random_tab, rawtbl_lit, subtree, tab_lit, wd_lit)
 
 
@@ -55,10 +55,17 @@ def body(ck):
     cb = CallbackList(callbacks=[])
     for idx in range(n_cases):
         det = bool(rng.random() < 0.4)
-        spec = random_tab(rng, box_obs=False, noise=not det, trunc_rate=0.08, term_rate=0.15)
-        if det:
-            spec["I"] = spec["I"][:1]; spec["P"] = [[[x[0]] for x in row] for row in spec["P"]]
-        stack, asp, osp = random_stack(rng, spec, depth=int(rng.integers(0, 3)), allow=_ALLOW)
+        chain = det and rng.random() < 0.6
+        if chain:
+            # key-free chain MDP under a TimeLimit hitting the terminal step: pure truncation / coincidence / pure termination
+            K = int(rng.integers(2, 5))
+            spec = chain_tab(rng, K, box_action=bool(rng.random() < 0.3))
+            stack, asp, osp = [["TimeLimit", int(K + rng.integers(-1, 2))]], list(spec["asp"]), list(spec["osp"])
+        else:
+            spec = random_tab(rng, box_obs=False, noise=not det, trunc_rate=0.08, term_rate=0.15)
+            if det:
+                spec["I"] = spec["I"][:1]; spec["P"] = [[[x[0]] for x in row] for row in spec["P"]]
+            stack, asp, osp = random_stack(rng, spec, depth=int(rng.integers(0, 3)), allow=_ALLOW)
         pspec = random_ptab(rng, spec, asp, int(spec["osp"][1]), det=det)
         env = build_stack(TabEnv(spec), stack)
         policy = TabPolicy(pspec, env.action_space, env.observation_space)
